@@ -8,7 +8,7 @@ ID = "C16"
 VARIANTS = ["plain"]
 TARGETS = ["ovniemu", "ovnisort"]
 LEVEL = "exploration"
-RULE = ("one or two streams with a sorted backbone (OHx .. OHe, bursts, marks, jumbo bursts) and 0-5 OU[ .. OU] "
+RULE = ("one or two streams (the second, already sorted one before or after the stream under test in path order) with a sorted backbone (OHx .. OHe, bursts, marks, jumbo bursts) and 0-5 OU[ .. OU] "
         "regions whose inner events have internally unordered clocks lying up to d events back (d from 0 to "
         "beyond the look-back -n, n from 3 up), equal clocks on both sides of the insertion point, regions that "
         "sort into a previous region or to the very start; always <= the clock of their OU].  Oracle when the "
@@ -120,8 +120,17 @@ def run(case, ctx):
           "extra": {"ovni.mark": {"0": {"title": "m", "chan_type": "single"}}}}
     streams = [s0]
     if case["second_stream"]:
-        streams.append({"loom": "n.0", "pid": 1, "tid": 2, "app": 1,
-                        "events": [T.OHx(1000, 1), T.plain("OHe", max(e[1] for e in evs) + 5)]})
+        # a second, already sorted stream; for odd n (or default n) it precedes the
+        # stream under test in path order, so the tool has processed another stream
+        # (and filled its look-back ring) before it reaches the regions
+        first = (case["n"] or 1) % 2 == 1
+        other = {"loom": "n.0", "pid": 1, "tid": 2, "app": 1,
+                 "events": [T.OHx(1000, 1)] + [T.plain("OB.", 1001 + i) for i in range(12)]
+                 + [T.plain("OHe", max(1013, max(e[1] for e in evs) + 5))]}
+        if first:
+            other["tid"] = 1
+            s0["tid"] = 2
+        streams.append(other)
     required, moved, expect = analyse(evs, n)
     d = ctx.newdir()
     try:
